@@ -60,6 +60,16 @@ def pow (x y : Int) : Outcome :=
   else if x = 0 then .evalError "undefined"
   else .typeError "float" x
 
+/-- `pow` in a form that can be EXECUTED for huge exponents (the oracle of the driver uses it; Lean cannot
+    evaluate 2 ^ (2^62)): a base of magnitude ≥ 2 with an exponent ≥ 64 is out of range, the bases
+    0, 1, -1 go by parity.  `powFast = pow` is a theorem (C07_powFast_eq). -/
+def powFast (x y : Int) : Outcome :=
+  if y < 64 then pow x y
+  else if x = 0 then .value 0
+  else if x = 1 then .value 1
+  else if x = -1 then .value (if y % 2 = 0 then 1 else -1)
+  else .evalError "int_overflow"
+
 /-! ### bits: two's complement of unbounded width -/
 
 /-- bit `i` of `z` in two's complement (floor division: negative numbers have infinitely many leading ones) -/
